@@ -32,6 +32,8 @@ def hooks(trace, wn, fault=None, deep=True):
     from wntr.sim.solvers import SolverStatus
     o_save, o_prev, o_solve = hyd.save_results, hyd.update_network_previous_values, core._solver_helper
 
+    tank_links = {n: [ln for ln, l in wn.links() if n in (l.start_node_name, l.end_node_name)] for n, o in wn.tanks()}
+
     def save_results(wn_, node_res, link_res):
         if deep:
             trace.saved.append({
@@ -52,6 +54,7 @@ def hooks(trace, wn, fault=None, deep=True):
                 'tank_head': {n: o.head for n, o in wn_.tanks()},
                 'tank_demand': {n: o.demand for n, o in wn_.tanks()},
                 'tank_leak': {n: o.leak_demand for n, o in wn_.tanks()},
+                'tank_link_flow': {n: {ln: wn_.get_link(ln).flow for ln in tank_links[n]} for n in tank_links},
             })
         return o_prev(wn_)
 
